@@ -9,7 +9,7 @@
 From Coq Require Import List NArith ZArith Bool Sorted Permutation.
 Import ListNotations.
 From SV Require Fmt.CmdSeq Fmt.CmdSeqProofs Fmt.ScenesImage Fmt.ScenesImageProofs Fmt.ScenesImageCfg Fmt.ScenesImageCfgProofs
-  Fmt.SmdTpl Fmt.SmdTplProofs Fmt.SmdWords Fmt.TextFields Fmt.TextFieldsProofs Fmt.SndStacks Fmt.SndStacksProofs Fmt.VmtQuote Fmt.VmtQuoteProofs Fmt.TextLines Fmt.TextLinesProofs Fmt.ChoreoBin Fmt.ChoreoBinProofs Fmt.SceneSummary Fmt.BspDedup Fmt.C20KeyTables Fmt.C20KeyTablesProofs Fmt.SmdNumber Fmt.SmdNumberProofs Fmt.ChoreoQuant Fmt.C20PropertyProofs KV.KvBase KV.KvLex KV.KvSym KV.KvLexProofs.
+  Fmt.SmdTpl Fmt.SmdTplProofs Fmt.SmdWords Fmt.TextFields Fmt.TextFieldsProofs Fmt.SndStacks Fmt.SndStacksProofs Fmt.VmtQuote Fmt.VmtQuoteProofs Fmt.TextLines Fmt.TextLinesProofs Fmt.ChoreoBin Fmt.ChoreoBinProofs Fmt.SceneSummary Fmt.BspDedup Fmt.C20KeyTables Fmt.C20KeyTablesProofs Fmt.SmdNumber Fmt.SmdNumberProofs Fmt.ChoreoQuant Fmt.VmtBlocks Fmt.VmtBlocksProofs Fmt.C20Property Fmt.C20PropertyProofs KV.KvBase KV.KvLex KV.KvSym KV.KvLexProofs.
 
 (** * Command sequences *)
 Module CS := Fmt.CmdSeq.
@@ -567,3 +567,122 @@ Theorem c20_property_partial :
      exists perm, Permutation perm bs /\ SN.read_nodes [] ls = Some (map SN.bone_rec perm)) /\
   (forall name adm fields k, In (name, adm, fields, k) ts -> DD.key_determines adm fields k = true).
 Proof. exact Fmt.C20PropertyProofs.property_partial. Qed.
+
+(** * VMT sub-blocks and proxies (round 5; VB := Fmt.VmtBlocks).  vmt._write_block is recursive: a block with children is written as
+    OPEN, its children at the indent extended by STEP, CLOSE; a block without children as LEAF.  The three templates, the step, the
+    indents Material.export starts with and the frame of the Proxies block are regenerated from vmt.py (Gen/VmtBlocks_gen.v, the
+    control flow is matched fail-closed); the check discharges [bcfg_okb] (self-delimiting items, whitespace indents) and
+    [bcfg_shape_okb] (the templates are  "name" NL { NL / } NL / "name" "value" NL) for the generated configuration and compares
+    [vmt_file_b] with Material.export on generated materials.  Names and values are written raw between quotes (Material.parse reads
+    with escapes disabled; the tokenizer model un-escapes, so [tree_ok] excludes quote, backslash and line break). *)
+Module VB := Fmt.VmtBlocks.
+Module VBP := Fmt.VmtBlocksProofs.
+
+(** one block with all its descendants, at any whitespace indent and any line: lexed as exactly the tokens of its templates *)
+Theorem c20_vmt_block_reads_back : forall E c, KvSym.esc_ok E = true -> VB.bcfg_okb c = true ->
+  forall t ind l, KvSym.ws_only ind = true -> VB.tree_ok c t = true ->
+  exists l', KvLexProofs.lexes E l (VB.write_block E c ind t) (VB.block_toks c t) l'.
+Proof. exact VBP.block_lexes. Qed.
+
+(** the whole file of a material with parameters, sub-blocks and proxies (extends c20_vmt_file_reads_back_partial) *)
+Theorem c20_vmt_file_with_blocks_reads_back_partial : forall E c, KvSym.esc_ok E = true -> VB.bcfg_okb c = true ->
+  forall q shader ps blocks proxies, VQ.nq_okb q = true -> VQP.shader_ok shader = true -> VQP.params_ok q ps = true ->
+  forallb (VB.tree_ok c) blocks = true -> forallb (VB.tree_ok c) proxies = true ->
+  KvLex.lex_all E (VB.vmt_file_b E c q shader ps blocks proxies) = (VB.vmt_tokens_b c shader ps blocks proxies, None).
+Proof. exact VBP.vmt_file_b_reads_back. Qed.
+
+(** for templates of the expected shape those tokens are the canonical token stream of the tree ... *)
+Theorem c20_vmt_block_tokens_canonical : forall c, VB.bcfg_shape_okb c = true -> forall t, VB.block_toks c t = VB.kv_toks t.
+Proof. exact VBP.block_toks_canonical. Qed.
+
+(** ... which a recursive-descent reader of block lists turns back into exactly the trees (with enough fuel; what follows the closing
+    brace is left), so the tokens determine the blocks *)
+Theorem c20_vmt_blocks_read_back_as_trees : forall ts st,
+  VBP.reads (flat_map VB.kv_toks ts ++ [KvBase.TBC; KvBase.TNL] ++ st) ts st.
+Proof. exact VBP.read_blocks_kv. Qed.
+Theorem c20_vmt_block_tokens_determine_blocks : forall ts1 ts2 st,
+  flat_map VB.kv_toks ts1 ++ [KvBase.TBC; KvBase.TNL] ++ st = flat_map VB.kv_toks ts2 ++ [KvBase.TBC; KvBase.TNL] ++ st -> ts1 = ts2.
+Proof. exact VBP.kv_toks_determine_blocks. Qed.
+
+(** refuted: a leaf template that does not quote the value, a close template without the brace *)
+Theorem c20_vmt_block_leaf_without_quotes_refuted :
+  VB.bcfg_shape_okb (VB.mkB (VB.b_open VB.ref_bcfg) (VB.b_close VB.ref_bcfg) [TL.IInd; TL.IQRaw; TL.IWs [32%N]; TL.IBare 10%N] [9%N] [9%N]
+                       (VB.b_prox_open VB.ref_bcfg) (VB.b_prox_close VB.ref_bcfg) [9; 9]%N) = false.
+Proof. exact VBP.leaf_without_quotes_refuted. Qed.
+Theorem c20_vmt_block_close_without_brace_refuted :
+  VB.bcfg_shape_okb (VB.mkB (VB.b_open VB.ref_bcfg) [TL.IInd; TL.INl] (VB.b_leaf VB.ref_bcfg) [9%N] [9%N]
+                       (VB.b_prox_open VB.ref_bcfg) (VB.b_prox_close VB.ref_bcfg) [9; 9]%N) = false.
+Proof. exact VBP.close_without_brace_refuted. Qed.
+
+(** * The property with ONE hypothesis (round 5).  [P.gen_objects] is the record of everything the seven translators regenerate from
+    today's source (cmdseq configuration, scenes.image configuration, soundscript version-2 test and stack blocks, keyed tables of the
+    writers, quantisation sites, VMT quoting table and block templates, the structured lines of the soundscript and choreo text writers, the SMD lines);
+    [P.premises] is the conjunction of the named booleans.  The check discharges [P.premises] for the record built from the Gen files
+    on every run (obligation [c20_property_premises_hold_for_the_objects_regenerated_from_todays_source]); nothing else is assumed
+    about the source.  What remains trusted is what gives the objects their meaning: the translators, the hand models behind
+    [CS.write] / [SC.img_save_s] / [CB.enc] / [SK.export] / [SN.number] / [VQ.vmt_file] / [TL.render] / [SW.render] (each compared with the
+    implementation on every run) and the tokenizer model of C01.  Compared with [c20_property_partial] it adds: the pool the
+    scenes.image writer builds, independence of caller order, sortedness of the stored table, second generation of binary layouts and
+    of soundscript stacks, independence of lazy reads, VMT files incl. sub-blocks and proxies, all structured text lines, all SMD lines. *)
+Module P := Fmt.C20Property.
+Theorem c20_property :
+  forall g : P.gen_objects, P.premises g = true ->
+  (* command sequences: written, read back equal, second generation identical *)
+  (forall v, CS.repr_okb (P.g_cmdseq g) v = true -> exists b, CS.write (P.g_cmdseq g) v = Some b /\ CS.parse (P.g_cmdseq g) b = Some v /\
+     forall v', CS.parse (P.g_cmdseq g) b = Some v' -> CS.write (P.g_cmdseq g) v' = Some b) /\
+  (* scenes.image: read back equal, table sorted by checksum, for both input forms and any dict keys *)
+  (forall is_dict version pool kes, SC.image_ok_w version pool (map snd kes) ->
+     exists b ps, SC.img_save_g (P.g_image g) is_dict version pool kes = Some b /\
+       SI.img_parse b = Some (version, pool, ps) /\ ps = map (SI.to_pentry version pool) (SI.sort_by_crc (map snd kes)) /\
+       StronglySorted N.le (map SI.p_crc ps)) /\
+  (* ... with the string pool the writer builds itself, every sound comes back as its string *)
+  (forall is_dict version pool0 kes, let pool := SC.pool_g (P.g_image g) is_dict pool0 kes in
+     SC.image_ok_w version pool (map (SC.resolve pool) (map snd kes)) ->
+     exists b, SC.img_save_s (P.g_image g) is_dict version pool0 kes = Some b /\
+       SI.img_parse b = Some (version, pool, map (SC.to_pentry_s version) (SC.sort_by SC.s_crc (map snd kes)))) /\
+  (* ... and equal images give identical files *)
+  (forall d1 d2 version pool0 kes1 kes2, Permutation (map snd kes1) (map snd kes2) -> NoDup (map SC.s_crc (map snd kes1)) ->
+     SC.img_save_s (P.g_image g) d1 version pool0 kes1 = SC.img_save_s (P.g_image g) d2 version pool0 kes2) /\
+  (* binary scenes: every layout decodes what it encoded, the second generation is identical, every stored quantised field is stable *)
+  (forall l env v b r, CB.enc l env v = Some b -> CB.dec l env (b ++ r) = Some (v, r)) /\
+  (forall l env v b v' r, CB.enc l env v = Some b -> CB.dec l env (b ++ r) = Some (v', r) -> CB.enc l env v' = Some b) /\
+  (forall s, In s (P.g_quant g) -> forall k, (0 <= k <= CQ.q_max s)%Z -> CQ.quant s (CQ.dequant s k) = Some k) /\
+  (* soundscript operator stacks: the value comes back, identically the second time, whatever lazy property was read before *)
+  (forall (A : Type) (x : SK.sound A), SK.same_value (SK.parse (fst (SK.export (P.g_snd_guard g) (P.g_snd_blocks g) x))) x /\
+     fst (SK.export (P.g_snd_guard g) (P.g_snd_blocks g) (SK.parse (fst (SK.export (P.g_snd_guard g) (P.g_snd_blocks g) x))))
+       = fst (SK.export (P.g_snd_guard g) (P.g_snd_blocks g) x) /\
+     forall ts, fst (SK.export (P.g_snd_guard g) (P.g_snd_blocks g) (SK.touches ts x)) = fst (SK.export (P.g_snd_guard g) (P.g_snd_blocks g) x)) /\
+  (* SMD: the nodes section reads back as the bones; every writer table has a key that determines what the reader identifies *)
+  (forall bs ls, NoDup (map SN.bkey bs) -> SN.number bs = Some ls ->
+     exists perm, Permutation perm bs /\ SN.read_nodes [] ls = Some (map SN.bone_rec perm)) /\
+  (forall name adm fields k, In (name, adm, fields, k) (P.g_tables g) -> DD.key_determines adm fields k = true) /\
+  (* SMD: every other written line splits at whitespace into exactly its fields; the bone line is read back by the reader's pattern *)
+  (forall l, In l (P.g_smd_lines g) ->
+     (SW.delim true l = true /\ forall ps, map fst ps = l -> SW.values_wordy ps = true -> SW.words (SW.render ps) = SW.fields ps) \/
+     (SW.nodes_line_shape l = true /\ forall a b idx nm par, l = [ST.ConvInt; ST.Lit a; ST.ConvStr; ST.Lit b; ST.ConvInt] ->
+        SW.all_digits idx = true -> forallb (fun c => negb (c =? 34)%N) nm = true -> SW.int_text par = true ->
+        SW.parse_nodes (SW.render [(ST.ConvInt, idx); (ST.Lit a, []); (ST.ConvStr, nm); (ST.Lit b, []); (ST.ConvInt, par)])
+        = Some (idx, nm, par))) /\
+  (* VMT (parameter-only materials): the file is read as shader, brace, the pairs in order, brace; the file determines the material *)
+  (forall E shader ps, VQP.shader_ok shader = true -> VQP.params_ok (P.g_vmt_nq g) ps = true ->
+     KvLex.lex_all E (VQ.vmt_file (P.g_vmt_nq g) shader ps) = (VQ.vmt_tokens shader ps, None)) /\
+  (forall s1 p1 s2 p2, VQP.shader_ok s1 = true -> VQP.params_ok (P.g_vmt_nq g) p1 = true -> VQP.shader_ok s2 = true ->
+     VQP.params_ok (P.g_vmt_nq g) p2 = true -> VQ.vmt_file (P.g_vmt_nq g) s1 p1 = VQ.vmt_file (P.g_vmt_nq g) s2 p2 -> s1 = s2 /\ p1 = p2) /\
+  (* VMT with sub-blocks and proxies: the file is read as shader, brace, the pairs, the canonical tokens of every block (name, brace,
+     children, brace / name, value), the Proxies frame with its blocks, brace; and a reader of such tokens gives the trees back *)
+  (forall E shader ps blocks proxies, KvSym.esc_ok E = true -> VQP.shader_ok shader = true -> VQP.params_ok (P.g_vmt_nq g) ps = true ->
+     forallb (VB.tree_ok (P.g_vmt_blocks g)) blocks = true -> forallb (VB.tree_ok (P.g_vmt_blocks g)) proxies = true ->
+     KvLex.lex_all E (VB.vmt_file_b E (P.g_vmt_blocks g) (P.g_vmt_nq g) shader ps blocks proxies)
+       = (VB.vmt_tokens_b (P.g_vmt_blocks g) shader ps blocks proxies, None) /\
+     (forall t, VB.block_toks (P.g_vmt_blocks g) t = VB.kv_toks t) /\
+     (forall st, VBP.reads (flat_map VB.kv_toks blocks ++ [KvBase.TBC; KvBase.TNL] ++ st) blocks st)) /\
+  (* soundscripts and text scenes: every structured line the writers can emit is lexed back as its keywords and field values *)
+  (forall E ind its vs l, KvSym.esc_ok E = true -> KvSym.ws_only ind = true -> In its (P.g_snd_lines g ++ P.g_cho_lines g) ->
+     TL.vals_ok its vs = true -> KvLexProofs.lexes E l (TL.render E ind its vs) (TL.toks its vs) (TL.lines its l)).
+Proof. exact Fmt.C20PropertyProofs.property. Qed.
+
+(** the premise is satisfiable (a record of the shape generated for the pinned tree) and rejects the classes of the seeded faults:
+    table ordered by the dict keys (c20_1, 3, 5, 7), version-2 test by presence of a lazy stack (c20_4, 8), bones compared through
+    casefold (c20_6) *)
+Theorem c20_property_premises_satisfiable : P.premises Fmt.C20PropertyProofs.pinned_objects = true.
+Proof. exact Fmt.C20PropertyProofs.premises_satisfiable. Qed.
